@@ -7,6 +7,7 @@ pub mod exec_range;
 pub mod exec_clone;
 pub mod exec_misc;
 pub mod exec_cap;
+pub mod exec_huge;
 pub mod exec_views;
 pub mod exec_handles;
 pub mod galloc;
@@ -91,15 +92,23 @@ fn init_states(r: &dyn Runner, prop: Prop, tier: Tier, cmax: usize) -> Vec<McSta
         }
     }
     // wide states: lengths around ceil(128 / size), where the erased shift switches from the byte loop to ptr::copy
-    if matches!(prop, Prop::C01 | Prop::C02 | Prop::C03 | Prop::C05) && r.fixed_cap().is_none() && r.elem_size() > 0 && r.elem_size() < 64 {
+    let shifting = matches!(prop, Prop::C01 | Prop::C02 | Prop::C03 | Prop::C05);
+    let bulk = matches!(prop, Prop::C08 | Prop::C10 | Prop::C17 | Prop::C18);
+    if (shifting || bulk) && r.fixed_cap().is_none() && r.elem_size() > 0 && r.elem_size() < 64 {
         let t = (128 + r.elem_size() - 1) / r.elem_size();
-        let mut lens = vec![t - 1, t, t + 1, t + t / 2];
-        if tier == Tier::Quick { lens = vec![t, t + 1]; }
+        let mut lens = if !shifting { vec![] } else if tier == Tier::Quick { vec![t, t + 1] } else { vec![t - 1, t, t + 1, t + t / 2] };
         // big states: lengths around powers of two up to 200 elements (block sizes up to 8 KB for the 40-byte layout), where a
-        // "large vector" fast path or a chunked copy would switch on; same reduced alphabet (`edges::wide_edges`)
+        // "large vector" fast path, a chunked copy / clone or a page-granular capacity policy would switch on; reduced alphabets
+        // (`edges::wide_edges`, `edges::big_edges`)
         let big: &[usize] = if tier == Tier::Quick { &[32, 33, 65, 129, 200] } else { &[31, 32, 33, 63, 64, 65, 127, 128, 129, 200] };
         for &l in big { if !lens.contains(&l) { lens.push(l); } }
-        for l in lens { if l > 3 && l < 230 { for extra in [0usize, 2] { v.push(McState { len: l as u16, cap: (l + extra) as u16, spare: Spare::Pristine, bad: None }); } } }
+        // one-byte element types carry 8-bit identities: where the alphabet clones the whole vector keep 2 x len inside the id space
+        let lmax_ids = if r.elem_size() == 1 && !matches!(prop, Prop::C01 | Prop::C02) { 100 } else { 229 };
+        for l in lens { if l > 3 && l <= lmax_ids {
+            for extra in [0usize, 2] { v.push(McState { len: l as u16, cap: (l + extra) as u16, spare: Spare::Pristine, bad: None }); }
+            // roomy: much spare capacity behind a big length (shrinking across a size threshold)
+            if (bulk || prop == Prop::C05) && (l == 33 || l == 129) { v.push(McState { len: l as u16, cap: 200, spare: Spare::Pristine, bad: None }); }
+        } }
     }
     v
 }
